@@ -85,7 +85,21 @@ REWRITE_MUTS = {
 }
 
 
-BY_PROPERTY = {'C13': [GRAPH_MUTS], 'C14': [KRIPKE_MUTS], 'C01': [CTL_MUTS], 'C05': [REWRITE_MUTS]}
+B = 'BDD/BDD.py'
+BDD_MUTS = {
+ 'fi_wrong_test': (B, "        lh_test = (lambda low, high: high is node.high)\n", "        lh_test = (lambda low, high: low is node.low)\n", ['find_isomorph']),
+ 'fi_wrong_set': (B, "        node_set = low.f_low\n", "        node_set = high.f_low\n", ['find_isomorph']),
+ 'fi_no_var': (B, "        if (isinstance(node, BDDNonTerminalNode) and var == node.var and\n                lh_test(low, high)):", "        if (isinstance(node, BDDNonTerminalNode) and\n                lh_test(low, high)):", ['find_isomorph']),
+ 'new_no_reduction': (B, "        if low is high:\n            return low\n\n        node = find_isomorph", "        node = find_isomorph", ['BDDNonTerminalNode.__new__']),
+ 'new_no_lookup': (B, "        node = find_isomorph(var, low, high)\n        if node is not None:\n            return node\n", "", ['BDDNonTerminalNode.__new__']),
+ 'new_swapped': (B, "        node.__reset__(var, low, high)\n\n        return node", "        node.__reset__(var, high, low)\n\n        return node", ['BDDNonTerminalNode.__new__']),
+ 'reset_no_fhigh': (B, "        self.high.f_high.add(self)\n", "", ['BDDNonTerminalNode.__reset__']),
+ 'reset_wrong_parent': (B, "        self.low.f_low.add(self)\n", "        self.high.f_low.add(self)\n", ['BDDNonTerminalNode.__reset__']),
+ 'reset_fields_swapped': (B, "        self.low = low\n        self.high = high\n", "        self.low = high\n        self.high = low\n", ['BDDNonTerminalNode.__reset__']),
+ 'base_reset_keeps_sets': (B, "        self.f_low = WeakSet()\n        self.f_high = WeakSet()", "        self.f_low = WeakSet()", ['BDDNode.__reset__']),
+}
+
+BY_PROPERTY = {'C13': [GRAPH_MUTS], 'C14': [KRIPKE_MUTS], 'C01': [CTL_MUTS], 'C05': [REWRITE_MUTS], 'C16': [BDD_MUTS]}
 # equivalent mutants (the change does not alter behaviour) are excluded from the requirement
 EQUIVALENT = {'sub_S0_all'}
 
